@@ -309,6 +309,24 @@ def refute(tier, seed, emit):
                             emit.violation(cl + ('' if lay == 'C' else ':memory-layout'), w, msg)
                 if emit.full:
                     return
+    # samples exactly on, just below and just above EVERY edge of bin sets whose edges are not exactly representable (tenths, sevenths, ...)
+    binsets = [(1, 2, 5), (0, 3, 10), (2, 10, 20), (0, 1, 7), (0, 1, 9), (0, 1, 5), (0, 1, 10), (0.5, 20, 11), (0.1, 0.7, 6), (3, 4, 3)] + ([(0, 1, n) for n in range(11, 30)] if tier == 'thorough' else [])
+    emit.scope('%d linear and log bin sets with inexactly representable edges x one sample exactly on / one ulp below / one ulp above every edge x {energy, amplitude}: each sample lands in the half-open bin [edge_k, edge_k+1) that numerically contains it' % (2 * len(binsets)), exhaustive=True)
+    for lo, hi, nb in binsets:
+        for scale in ('linear', 'log'):
+            if scale == 'log' and lo <= 0:
+                continue
+            e = ES.define_hist_bins(lo, hi, nb, scale)[0]
+            f = np.concatenate([e, np.nextafter(e, -np.inf), np.nextafter(e, np.inf)])[:, None]
+            a = (1.0 + 0.25 * np.arange(len(f)))[:, None]
+            for mode in ('energy', 'amplitude'):
+                emit.case(('on-edges', lo, hi, nb, scale, mode), nontrivial=True, contract='hilberthuang')
+                w = {'kind': 'hht', 'infr': f.tolist(), 'inam': a.tolist(), 'edges': e.tolist(), 'mode': mode, 'layout': 'C'}
+                ok, msg = replay(w)
+                if ok:
+                    emit.violation('each-sample-in-exactly-its-half-open-bin:on-inexact-edges', w, msg[:400])
+        if emit.full:
+            return
     # bin construction
     emit.scope('define_hist_bins: linear and log, 1..8 bins: edge count, monotone, end points, midpoints')
     for scale in ('linear', 'log'):
